@@ -1,7 +1,7 @@
 (* C18 — Value path operations obey get/insert/remove laws.
    Model: Model/ValueCrud.v (src/value/value/crud/*.rs).  Nothing but statements here. *)
 From Coq Require Import List NArith ZArith Bool String.
-From VRL Require Import Base.Bytes Base.Value Base.Lit Model.ValueCrud Proofs.ValueCrudProofs.
+From VRL Require Import Base.Bytes Base.Value Base.Lit Model.ValueCrud Proofs.ValueCrudProofs Proofs.ReadOnlyProofs.
 Import ListNotations.
 Local Open Scope string_scope.
 Local Open Scope list_scope.
@@ -45,6 +45,19 @@ Theorem C18_through_scalar : forall (v : value) (p1 : path) (w : value) (s : seg
   get v (p1 ++ s :: p2) = None /\ remove v (p1 ++ s :: p2) prune = (None, v).
 Proof. exact through_scalar. Qed.
 Print Assumptions C18_through_scalar.
+
+(* the frame law for removal (without pruning): field-only locations that neither contain nor are
+   contained in the removed path keep their value *)
+Theorem C18_remove_frame_fields : forall (v : value) (q P : path),
+  sep q P -> get (snd (remove v q false)) P = get v P.
+Proof. exact remove_frame. Qed.
+Print Assumptions C18_remove_frame_fields.
+
+(* a failed removal (nothing found at the path) leaves the value untouched, with and without pruning *)
+Theorem C18_remove_nothing_unchanged : forall (v : value) (p : path) (prune : bool),
+  get v p = None -> remove v p prune = (None, v).
+Proof. exact remove_none_unchanged. Qed.
+Print Assumptions C18_remove_nothing_unchanged.
 
 (* non-vacuity: the hypotheses are met by concrete non-trivial states *)
 Example C18_frame_nonvacuous :
